@@ -370,6 +370,119 @@ def run_creator(out: Outcome, drv):
     finally:
         shutil.rmtree(tmp, ignore_errors=True)
 
+WHAT_SRC = "IoosQc.NpFx.C20_src_eval / C20_src_history (the transcription NpSrc.eval_fx of evaluate_stack, run on the raw stack)"
+ODD_ENTRIES = ["", "+-", "*/", "^", "PI", "E", "pi", "foo", "inf", "nan", "Mean", "unary -", "unary", "-2", ".5", "1_0", " 3", "3 ", "2.", "1e1",
+               "0x10", "1__0", "é", "٣", "sin", "abs", "sgn", "mean", "min", "max", "std", "+", "-", "*", ("sin", 1), ("abs", 1), ("mean", 1),
+               ("max", 0), ("foo", 2), ("+", 0), ("unary -", 0), ("3", 0)]
+FN_EXPRS = ["abs(mean)", "abs(0 - 3)", "sgn(min) * 2", "round(2.5) + 1", "trunc(2.5)", "mean(3)", "PI * 2", "E", "2 ^ 3", "2 ^ 3 ^ 2", "exp(0)"]
+
+
+def _gen_nodiv(rng, depth):
+    t = _gen(rng, depth)
+
+    def strip(t):
+        if "op" in t:
+            return {"op": "*" if t["op"] == "/" else t["op"], "a": strip(t["a"]), "b": strip(t["b"])}
+        if "neg" in t:
+            return {"neg": strip(t["neg"])}
+        return t
+    return strip(t)
+
+
+def _postfix(rng, t):
+    """what the parse actions push for the tree (numbers in one of their spellings)"""
+    if "num" in t:
+        return [num_str(rng, t["num"])]
+    if "stat" in t:
+        return [t["stat"]]
+    if "neg" in t:
+        return _postfix(rng, t["neg"]) + ["unary -"]
+    return _postfix(rng, t["a"]) + _postfix(rng, t["b"]) + [t["op"]]
+
+
+def _py_float(x):
+    try:
+        v = float(x)
+    except Exception:  # noqa: BLE001
+        return "raises", None
+    if v != v or v in (float("inf"), float("-inf")):
+        return "nonfinite", None
+    return "ok", F(v)
+
+
+def run_src(out: Outcome, drv):
+    """The transcription of evaluate_stack (regenerated from the source, pinned) against the REAL evaluate_stack on raw stacks:
+    the real persistent stack after a history of eval_fx calls, and synthetic stacks with odd entries."""
+    n = 400 if out.tier == "quick" else 8000
+    rng = gen.rng_for(out.seed, "C20", "src")
+    reqs, meta = [], []
+    # the comparison is exact, so everything this sub-check leaves on the stack is free of "/" (a quotient that is not a dyadic
+    # number is rounded by the real code); what run_eval left there is dropped first
+    del fx_parser.exprStack[:]
+    for i in range(n):
+        stats = {k: rng.choice([F(0), F(1), F(2), F(5, 2), F(-3), F(10), F(1, 4)]) for k in STATS}
+        fstats = {k: float(v) for k, v in stats.items()}
+        if i % 2 == 0:
+            mode = "real-stack"
+            for _ in range(rng.randint(1, 4)):
+                r = rng.random()
+                if r < 0.2:
+                    fx = rng.choice(BROKEN)
+                elif r < 0.35:
+                    fx = rng.choice(BAD_IDENT)
+                elif r < 0.5:
+                    fx = rng.choice(FN_EXPRS)
+                else:
+                    t = {"num": F(1)}
+                    for _try in range(50):
+                        c = _gen_nodiv(rng, rng.randint(0, 4))
+                        if _eval(c, stats)[0]:
+                            t = c
+                            break
+                    fx = render(rng, t)
+                call_eval(fx, stats)
+            stack = list(fx_parser.exprStack)[-40:]
+        else:
+            mode = "synthetic"
+            stack = [rng.choice(ODD_ENTRIES) for _ in range(rng.randint(0, 3))] + _postfix(rng, _gen_nodiv(rng, rng.randint(0, 3)))
+            for _ in range(rng.choice([0, 1, 1, 2])):
+                if stack:
+                    k = rng.randrange(len(stack))
+                    r = rng.random()
+                    if r < 0.6:
+                        stack[k] = rng.choice(ODD_ENTRIES)
+                    elif r < 0.8:
+                        del stack[k]
+                    else:
+                        stack.insert(k, rng.choice(ODD_ENTRIES))
+        floats, skip = [], False
+        for x in sorted({e if isinstance(e, str) else e[0] for e in stack}):
+            kind, v = _py_float(x)
+            if kind == "nonfinite" and not (x[:1].isalpha()):
+                skip = True
+            floats.append({"s": x, "v": enc(v) if v is not None else None})
+        if skip:
+            continue
+        try:
+            val = fx_parser.evaluate_stack(list(stack), fstats)
+            fv = float(val)
+            obs = {"out": "nonfinite"} if (fv != fv or fv in (float("inf"), float("-inf"))) else {"out": "ok", "value": F(fv)}
+        except Exception as e:  # noqa: BLE001
+            obs = {"out": "raised", "error_type": type(e).__name__}
+        reqs.append({"kind": "fx_src", "stats": enc(stats), "floats": floats,
+                     "stack": [{"s": e} if isinstance(e, str) else {"name": e[0], "nargs": e[1]} for e in stack]})
+        meta.append((mode, stack, stats, obs))
+    for (mode, stack, stats, obs), a in zip(meta, drv.run(reqs)):
+        case = {"stack": [list(e) if isinstance(e, tuple) else e for e in stack], "stats": stats}
+        out.record(case, len(stack) > 1, ["src", mode, "model:" + a["out"], "real:" + obs["out"]])
+        if a["out"] == "unmodelled":
+            continue                        # PI, E, ^, a function call: a value outside ℚ, nothing is claimed
+        ok = a["out"] == obs["out"] and (a["out"] != "ok" or F(a["value"][0], a["value"][1]) == obs["value"])
+        if not ok:
+            out.violation(f"{WHAT_SRC}: evaluate_stack on the stack {case['stack']} gave {obs}; the transcription gives {a}",
+                          {"case": jsonable(case), "observed": jsonable(obs), "model": a,
+                           "python": f"from ioos_qc.config_creator import fx_parser; fx_parser.evaluate_stack({stack!r}, {{k: float(v) for k, v in stats.items()}})"})
+
 
 def run(out: Outcome, drv):
     out.rule = ("(a) histories of 1..6 eval_fx calls mixing grammar-generated expressions (depth <= 4 quick / 6 thorough, numbers and "
@@ -379,7 +492,10 @@ def run(out: Outcome, drv):
                 "climatologies constant in time written as netCDF3, random inclusive bounding boxes on / beside cell coordinates, "
                 "two variables with different empty cells, histories of 1..5 requests on ONE creator object drawn from <= 3 boxes (one shared "
                 "list object per box), <= 2 periods, 2 expression sets and both variables (repeats X,Y,X; boxes empty for one variable). "
-                "All cases are counted non-trivial except one-token expressions")
+                "All cases are counted non-trivial except one-token expressions; (d) raw stacks: the real persistent exprStack after histories that "
+                "also use functions, PI, E and ^, and synthetic stacks with odd entries (empty string, pieces of '+-*/^', tuples, float() "
+                "oddities, non-ASCII letters and digits), evaluated by the real evaluate_stack and by its regenerated transcription")
     run_eval(out, drv)
+    run_src(out, drv)
     run_valid(out, drv)
     run_creator(out, drv)
